@@ -295,6 +295,7 @@ Proof.
                             |apply keys_nodup_add_registration; assumption].
   - (* delete topic *)
     unfold h_delete_topic. destruct q as [|[t|] c n]; cbn [fst]; try assumption.
+    destruct (negb (is_valid_name t)); cbn [fst]; [assumption|].
     split; cbn [db set_db]; [repeat apply shape_g_remove_all|repeat apply keys_nodup_remove_all]; assumption.
   - (* create channel *)
     unfold h_create_channel. destruct q as [|t c n]; cbn [fst]; try assumption.
@@ -309,7 +310,8 @@ Proof.
     destruct (find_registrations CChannel t' c' (db s)) eqn:F; cbn [fst]; [assumption|].
     split; cbn [db set_db]; [apply shape_g_remove_all|apply keys_nodup_remove_all]; assumption.
   - (* tombstone *)
-    unfold h_tombstone. destruct q as [|[t|] c [node|]]; cbn [fst]; try assumption.
+    unfold h_tombstone. destruct q as [|[t|] c [node|]]; cbn [fst]; try assumption;
+      destruct (negb (is_valid_name t)); cbn [fst]; try assumption.
     split; cbn [db set_db].
     + apply shape_g_fold_tombstone; [|assumption]. intros kp Hin. apply filter_In in Hin as [Hin _].
       apply (find_producers_k_cat _ _ _ _ _ Hin).
